@@ -29,12 +29,20 @@ PROP = dict(
         "Ed25519 verdicts are supplied by the harness from crypto/ed25519 (not re-implemented in Lean)",
     ],
     assumptions=[
-        "IDEAL SIGNATURE SCHEME (Sig.Ideal, lean/TongoProofs/Lemmas/SigIdeal.lean) - a local hypothesis of every negative "
-        "theorem: SigCorrect; SigUnforgeable (verify pk m s = true -> exists sk, pk = pub sk and s = sign sk m); SigBinds (a "
-        "signature determines its signer's public key and, on 32-byte digests, the digest). Real Ed25519 satisfies them only "
-        "up to negligible probability against bounded adversaries; the same negatives are exercised with crypto/ed25519 on "
-        "every run. The accept-all verifier does NOT satisfy them (theorem Sig.accept_all_violates); a toy scheme does "
-        "(Sig.toy_ideal), so the theorems are not vacuous",
+        "IDEALISED SIGNATURE SCHEME, FOR HONESTLY GENERATED KEYS ONLY (Sig.Ideal, lean/TongoProofs/Lemmas/SigIdeal.lean) - a local "
+        "hypothesis of every negative theorem: SigCorrect, and SigSound: a genuine signature (made with sk over a 32-byte digest m) "
+        "verifies under an honestly generated key pub sk' for a 32-byte digest m' only if pub sk' = pub sk and m' = m (for Ed25519 "
+        "with prime-order keys: up to collisions / fixed points of the internal SHA-512 mod the group order - an IDEALISATION). "
+        "Every rejection theorem REQUIRES the key controlling the account (from the get-method or the state init) to be honestly "
+        "generated (Sig.Honest pub k). accepted_was_signed alone additionally assumes SigUnforgeable under honest keys. The "
+        "accept-all verifier does NOT satisfy the hypotheses (Sig.accept_all_violates); a toy scheme does (Sig.toy_ideal)",
+        "THE LIMIT (witnessed): for keys that are NOT honestly generated CheckProof gives no such guarantee - Go's ed25519.Verify "
+        "accepts a fixed signature for EVERY message under the small-order key 01 00..00 (oracle go.ed.smallorder); if the "
+        "account's get-method reports that key, a proof forged without any private key IS accepted (oracle go.tc.smallkey, "
+        "expected and reproduced on every run): CheckProof proves control of the key the account reports, nothing more; and "
+        "ParseStateInit returning the all-zero key for the lockup code made forged proofs acceptable (known finding, fixed; "
+        "zero_key_returned_before_fix, oracle go.tc.lockup). The hypotheses are consistent with this "
+        "(Sig.toy_dishonest_key_accepts_all)",
         "CollisionFree SHA-256 on the byte strings compared (inner and outer message strings of the two messages; the "
         "representations of the cells of the supplied and of the genuine state init) - local hypotheses, with a non-vacuity example",
         "unforgeability of the 16-byte truncated HMAC-SHA-256 of the payload under the server secret: the theorems say a "
@@ -59,31 +67,44 @@ PROP = dict(
         "server's own CheckPayload are modelled separately and composed in reject_domain_static / reject_proof_with_bad_payload",
     ],
     partial=[
-        "'accepted ONLY for the key controlling the address' is proved CONDITIONALLY on the ideal signature scheme and "
-        "collision-freedom (reject_foreign_signer, reject_substituted_address / _domain / _timestamp / _payload, "
+        "'accepted ONLY for the key controlling the address' is proved ONLY when that key is honestly generated, and "
+        "CONDITIONALLY on the idealised signature scheme and collision-freedom (reject_foreign_signer, reject_substituted_address / _domain / _timestamp / _payload, "
         "reject_stateinit_of_other_key, accepted_was_signed): no unconditional or computational (game-based) statement",
         "the get-method path trusts the executor's answer: that the key returned by get_public_key IS the key controlling "
         "the account is the blockchain's semantics, outside the model; the state-init path is proved "
         "(stateinit_for_address_has_owner_key) for the wallet data layouts of the known versions",
+        "check_total covers CheckProof's own logic only: its callees (BOC deserialisation - C07/C08 -, the executor, the "
+        "callbacks) are represented by their results; their totality is not composed",
+        "the decision-logic theorems hash cells with the level-0 formula Cell.hashO (Go's Cell.Hash on trees of level-0 "
+        "non-pruned cells only); the new negatives about a supplied state init assume a tree of ordinary cells (Cell.wfOrd); "
+        "no concrete collision-free instance is given for the state-init theorems (the field theorems have instances: pad32 for "
+        "the workchain, nvTail for domain / timestamp / payload)",
+        "the substituted-field theorems need the presented address to decode to 32 bytes (ParsedWF); Go's "
+        "convertTonProofMessage has no such check (see assumptions)",
     ],
     level_text="Theorems for all inputs about the Lean model of CheckProof: an honest proof (CreateSignedProof) for any "
                "wallet version with a known code hash is accepted and yields the wallet key, via the get-method or via the "
                "state-init (signature correctness assumed). Decision-logic rejections proved outright: payload refused / MAC "
                "mismatch / payload expired (composed with the server's CheckPayload) / proof expired with strict boundary / "
                "domain / undecodable fields / state-init hash mismatch / unknown or key-less wallet code. CRYPTOGRAPHIC "
-               "rejections proved UNDER the ideal signature scheme Sig.Ideal (correct + unforgeable + binding) and "
-               "CollisionFree SHA-256: whatever is accepted was signed by a secret key of the returned key over the digest of "
-               "the presented fields (accepted_was_signed); a proof signed by another key than the one controlling the "
-               "account is rejected (reject_foreign_signer); a signature made over other address / workchain / domain / "
+               "rejections proved UNDER the idealised scheme Sig.Ideal (correct + sound, honestly generated keys only), "
+               "CollisionFree SHA-256, and the premise that the key controlling the account is honestly generated: a proof "
+               "signed by another key than that one is rejected (reject_foreign_signer); what is accepted under an honest key was "
+               "signed by a secret key of it over the digest of the presented fields (accepted_was_signed, needs SigUnforgeable); a signature made over other address / workchain / domain / "
                "timestamp / payload is rejected (reject_substituted_*, through the injective byte layout message_binds); a "
                "supplied state init that hashes to the account address holds the owner's key, so a state init of another key "
                "plus that key's signature is rejected (reject_stateinit_of_other_key). The accept-all verifier is excluded by "
-               "the hypotheses (accept_all_violates), a toy ideal scheme and a collision-free 32-byte hash instantiate them. "
+               "the hypotheses (accept_all_violates); a toy scheme instantiates them while accepting everything under a dishonest "
+               "key, which is what Go's Ed25519 does under the small-order key 01 00..00 - there CheckProof accepts a forged proof "
+               "(oracles go.ed.smallorder, go.tc.smallkey; zero_key_returned_before_fix); toy 32-byte hashes give collision-free "
+               "instances for the workchain / domain / timestamp / payload theorems. "
                "CheckProof's own logic and ParseStateInit never panic and only hand 32-byte keys to ed25519.Verify (false "
                "before the repairs: negation proved on a witness and replayed on Go). The model is tied to the Go code by exact "
                "correspondence of digest, payload verdicts, ParseStateInit and CheckProof outcomes on every run, with real Ed25519/HMAC.",
+    level="proof",
     level_note="trusted: Lean kernel, harness incl. stub executor, validated SHA-256/HMAC primitives; IDEALISATIONS (hypotheses "
-               "of the negative theorems): ideal signature scheme, SHA-256 collision-freedom; assumption: HMAC unforgeability",
+               "of the negative theorems, honestly generated keys only): signature soundness / unforgeability, SHA-256 "
+               "collision-freedom; assumption: HMAC unforgeability; the negative clauses are conditional theorems, see partial",
     technique="decision-logic model + case analysis proofs, parse/print round-trip lemmas, injectivity of fixed-width "
               "encodings, differential correspondence with real crypto, direct property oracles (incl. a zero-key forgery)",
 )
